@@ -400,4 +400,147 @@ theorem stmtP (kvs : TPairs) (kt vt : TType) (hw : kvs.wt kt vt = true) (hpos : 
       simp; congr 2; omega
 end
 
+/-! ### every iteration consumes a byte: the budget `len + 1` suffices on every input -/
+
+mutual
+theorem itersV_le (v : TVal) (hw : v.wt = true) : itersV v ≤ (Binary.enc .be v).length := by
+  cases v with
+  | struct fs => simp [TVal.wt] at hw; simpa [itersV, Binary.enc] using itersF_le fs hw
+  | list et xs =>
+    simp [TVal.wt] at hw
+    have := itersL_le xs et hw.2
+    simp only [itersV, Binary.enc]; split <;> simp [Binary.i] <;> omega
+  | set et xs =>
+    simp [TVal.wt] at hw
+    have := itersL_le xs et hw.2
+    simp only [itersV, Binary.enc]; split <;> simp [Binary.i] <;> omega
+  | map kt vt kvs =>
+    simp [TVal.wt] at hw
+    have := itersP_le kvs kt vt hw.2
+    simp only [itersV, Binary.enc]; split <;> simp [Binary.i] <;> omega
+  | uuid bs => simp [TVal.wt] at hw; simp [itersV, Binary.enc, hw]
+  | bin bs => simp [itersV, Binary.enc, Binary.i]; omega
+  | bool b => simp [itersV, Binary.enc]
+  | i8 x => simp [itersV, Binary.enc, Binary.i]
+  | i16 x => simp [itersV, Binary.enc, Binary.i]
+  | i32 x => simp [itersV, Binary.enc, Binary.i]
+  | i64 x => simp [itersV, Binary.enc, Binary.i]
+  | dbl x => simp [itersV, Binary.enc]
+theorem itersL_le (xs : TVals) (et : TType) (hw : xs.wt et = true) : itersL xs ≤ (Binary.encVals .be xs).length := by
+  cases xs with
+  | nil => simp [itersL]
+  | cons v vs =>
+    simp [TVals.wt] at hw
+    have := itersV_le v hw.1.2
+    have := itersL_le vs et hw.2
+    simp [itersL, Binary.encVals]; omega
+theorem itersF_le (fs : TFields) (hw : fs.wt = true) : itersF fs ≤ (Binary.encFields .be fs).length := by
+  cases fs with
+  | nil => simp [itersF, Binary.encFields]
+  | cons id v rest =>
+    simp [TFields.wt] at hw
+    have := itersV_le v hw.1.2
+    have := itersF_le rest hw.2
+    simp only [itersF, Binary.encFields]; split <;> simp [Binary.i] <;> omega
+theorem itersP_le (kvs : TPairs) (kt vt : TType) (hw : kvs.wt kt vt = true) : itersP kvs ≤ (Binary.encPairs .be kvs).length := by
+  cases kvs with
+  | nil => simp [itersP]
+  | cons k v rest =>
+    simp [TPairs.wt] at hw
+    have := itersV_le k hw.1.1.2
+    have := itersV_le v hw.1.2
+    have := itersP_le rest kt vt hw.2
+    simp [itersP, Binary.encPairs]; omega
+end
+
+/-- the iterative skipper on the encoding of any well-typed value followed by anything:
+exactly the value is consumed and counted — no depth bound. -/
+theorem iterSkip_enc (v : TVal) (hw : v.wt = true) (r : Bytes) :
+    iterSkip v.ttype (Binary.enc .be v ++ r) = .ok ((Binary.enc .be v).length, r) := by
+  have hle := itersV_le v hw
+  unfold iterSkip iterInit
+  obtain ⟨g, hg⟩ : ∃ g, (Binary.enc .be v ++ r).length + 1 = g + itersV v := ⟨(Binary.enc .be v ++ r).length + 1 - itersV v, by simp; omega⟩
+  rw [hg]
+  by_cases hs : v.ttype = .struct
+  · obtain ⟨fs, rfl⟩ : ∃ fs, v = .struct fs := by
+      cases v <;> simp [TVal.ttype] at hs; exact ⟨_, rfl⟩
+    simp only [TVal.ttype, if_true, itersV, Binary.enc]
+    have := stmtB fs (by simpa [TVal.wt] using hw) g 0 r { t0 := .struct, t1 := .struct, len := 1 } [] (sel_same _ _) (by simp)
+    rw [this]
+    simp [popped, iterBottom, resume]
+  · simp only [hs, if_false]
+    have := stmtA v hw hs g 0 r []
+    rw [this]
+    simp [iterBottom, resume]
+
+theorem uAdvance_len {w n bs n' r} (h : uAdvance w n bs = .ok (n', r)) : r.length + w = bs.length := by
+  unfold uAdvance at h; split at h <;> simp at h
+  obtain ⟨_, rfl⟩ := h; simp; omega
+
+theorem unchecked_ok {α} {x : Out α} {a} (h : unchecked x = .ok a) : x = .ok a := by
+  unfold unchecked at h; split at h <;> simp_all
+
+attribute [grind →] uAdvance_len unchecked_ok
+
+theorem iterBody_len {tt n bs st a n' bs' st'} (h : iterBody tt n bs st = .ok (a, n', bs', st')) : bs'.length + 1 ≤ bs.length := by
+  cases tt <;> simp only [iterBody] at h <;> osplit_at h <;> grind
+
+theorem iterStep_len {s s'} (h : iterStep s = .ok (.inr s')) : s'.bs.length + 1 ≤ s.bs.length := by
+  unfold iterStep at h
+  cases hb : iterBody s.tt s.n s.bs s.stack with
+  | ok p =>
+    obtain ⟨a, n', bs', st'⟩ := p
+    have := iterBody_len hb
+    simp only [hb] at h
+    cases a
+    · simp at h; subst h; simpa using this
+    · simp only [iterBottom] at h
+      osplit_at h <;> (subst h; simpa using this)
+  | err k => simp [hb] at h
+  | panic m => simp [hb] at h
+  | fuel => simp [hb] at h
+
+theorem iterStep_ne_fuel (s : IState) : iterStep s ≠ .fuel := by
+  have hf : ∀ t, fixedSize t ≠ .fuel := fun t => by simp [fixedSize_eq]
+  have hp : ∀ st, pop st ≠ .fuel := fun st => by unfold pop; osplit
+  have hu : ∀ w n bs, uAdvance w n bs ≠ .fuel := fun w n bs => by unfold uAdvance; osplit
+  have hun : ∀ {α} (x : Out α), x ≠ .fuel → unchecked x ≠ .fuel := fun x hx => by unfold unchecked; split <;> simp_all
+  have h1 := hun _ (Binary.readI_ne_fuel .be 4 s.bs)
+  have h2 := hun _ (Binary.readFieldBegin_ne_fuel .be s.bs)
+  have h3 := hun _ (rawListBegin_ne_fuel s.bs)
+  have h4 := hun _ (rawMapBegin_ne_fuel s.bs)
+  intro h
+  unfold iterStep at h
+  cases hb : iterBody s.tt s.n s.bs s.stack with
+  | ok p =>
+    obtain ⟨a, n', bs', st'⟩ := p
+    simp only [hb] at h
+    cases a
+    · simp at h
+    · simp only [iterBottom] at h; osplit_at h; simp_all
+  | err k => simp [hb] at h
+  | panic m => simp [hb] at h
+  | fuel =>
+    generalize s.tt = tt at hb
+    cases tt <;> simp only [iterBody] at hb <;> osplit_at hb <;> simp_all
+
+theorem iterRun_nofuel : ∀ f s, s.bs.length + 1 ≤ f → iterRun f s ≠ .fuel := by
+  intro f
+  induction f with
+  | zero => intro s h; omega
+  | succ f ih =>
+    intro s hf h
+    simp only [iterRun] at h
+    cases hs : iterStep s with
+    | ok x =>
+      cases x with
+      | inl res => simp [hs] at h
+      | inr s' =>
+        simp only [hs] at h
+        have := iterStep_len hs
+        exact ih s' (by omega) h
+    | err k => simp [hs] at h
+    | panic m => simp [hs] at h
+    | fuel => exact iterStep_ne_fuel s hs
+
 end Pilota.Thrift.Skip
